@@ -141,6 +141,12 @@ def batch_runs(ctx, kinds=("span", "log"), focus=None):
         for sc in slow if focus in ("C02", "C01") else slow[:1]:
             runs.append(["explore", k, "random", n // 2, s + 78, sc])
             runs.append(["explore", k, "pct", n // 2, s + 79, sc])
+        if focus in ("C01", "C02"):
+            # Shutdown with a finite / zero timeout and a slow exporter with a backlog of several batches: the
+            # queue is drained and the exporter shut down whatever the timeout (13th field = Shutdown timeout class)
+            for sc in ["3,1,1,3,0,1,8,0,0,0,0,0,1", "4,1,2,2,1,1,8,3,0,0,0,0,2", "3,1,1,3,0,2,8,0,1,0,0,0,3"]:
+                runs.append(["explore", k, "random", n // 4, s + 82, sc])
+                runs.append(["explore", k, "pct", n // 4, s + 83, sc])
         if focus == "C01":
             # production goes on while and after two flushers overlap on a slow exporter, with a tiny queue:
             # "never lost when at most max_queue_size records are produced between two completed flushes"
